@@ -1,1 +1,6 @@
 -- modules of work area Persist (add imports here)
+import AM.Model.Snapshot
+import AM.Model.CrashFS
+import AM.Props.C11
+import AM.Model.Config
+import AM.Props.C17
